@@ -3683,7 +3683,7 @@ func (a *Association) handleReconfigParam(raw param) (*packet, error) {
 	switch par := raw.(type) {
 	case *paramOutgoingResetRequest:
 		a.log.Tracef("[%s] handleReconfigParam (OutgoingResetRequest)", a.name)
-		if sna32LT(a.peerLastTSN(), par.senderLastTSN) && len(a.reconfigRequests) >= maxReconfigRequests {
+		if !sna32LTE(par.senderLastTSN, a.peerLastTSN()) && len(a.reconfigRequests) >= maxReconfigRequests {
 			// We have too many reconfig requests outstanding. Drop the request and let
 			// the peer retransmit. A well behaved peer should only have 1 outstanding
 			// reconfig request.
